@@ -11,9 +11,10 @@
  * expressed in, read through the library's own _dispatch_uptime/_dispatch_monotonic_time/_dispatch_get_nanoseconds:
  *   NeverEarly       now >= start of the configuration being followed (start computed BEFORE arming)
  *   CountBound       cumulative dispatch_source_get_data for a configuration <= floor((now-start)/interval)+1
- *   OnlyNewConfig    after a set_timer that is ordered before the invocation (same serial queue / in the
- *                    handler) only the new start/interval are followed; for set_timer from a foreign thread
- *                    at most the one invocation that raced with the call may still follow the old one
+ *   OnlyNewConfig    after a set_timer only the new start/interval are followed: own-queue controlled timers (set_timer on
+ *                    the timer's serial target queue or inside the handler) are judged against the generation in force on
+ *                    that queue; foreign-thread controlled timers against the generation G derived below (the only "old"
+ *                    invocation that is legitimate is one whose invoke looked for a configuration before the publication)
  *   AfterAtMostOnce / exactly once for dispatch_after
  *   Fires            every armed, unsuspended, uncancelled timer is invoked (waits generously; a miss is a
  *                    violation only when the process is quiescent with the timer overdue by 10 s, or after 45 s)
@@ -33,6 +34,10 @@
  *   C slow handler (timer is disarmed behind its back) that calls set_timer itself
  *   D one-shot that already fired, set_timer
  * and the statistics `configure_on_disarmed_pending` = configures that found count<<1|MARKER in ds_pending_data.
+ * Directed population (environment C11_STEER_CFG_WINDOW=<us>, used by tools/props/C11.py): see gen_scenario / hook_pre; a
+ * failing invocation whose latch fell between "configuration taken" and "pending data cleared" of a configure running on
+ * another thread is reported with signature=configure-window (known finding configure-window-latch-race).
+ * C11_TRACE_ONLY=1 (demonstrations): record the trace without judging in the driver.
  * Trace mode (5th argument): every start/interval is a whole microsecond and the guarded H5 probes of
  * event.c / event_epoll.c (manager-side decisions: arm, disarm, run, fire, program, timerfd event, blocking
  * epoll_wait) are recorded and written as ndjson for spec/TimerTrace.tla, times in microseconds since a base.
@@ -64,7 +69,7 @@
 #define FAR_NS (5ull * NSEC_PER_SEC)
 enum { K_SOURCE = 0, K_AFTER = 1, K_AFTER_F = 2 };
 enum { OP_SET_OWN = 1, OP_SET_FOREIGN, OP_SUSPEND, OP_RESUME, OP_CANCEL, OP_BUSY };
-enum { SC_RANDOM = 0, SC_SUSP_FIRE, SC_BUSY_QUEUE, SC_SLOW_HANDLER, SC_ONESHOT_FIRED, SC_N };
+enum { SC_RANDOM = 0, SC_SUSP_FIRE, SC_BUSY_QUEUE, SC_SLOW_HANDLER, SC_ONESHOT_FIRED, SC_CFG_WINDOW, SC_N };
 
 typedef struct {
 	int clock;            /* DISPATCH_CLOCK_UPTIME / MONOTONIC / WALL */
@@ -93,7 +98,7 @@ typedef struct tmr {
 	int inh_at; cfgspec_t inh_spec; /* set_timer from inside the handler at invocation number inh_at */
 	int scen; int slow_at; uint64_t slow_us;   /* scenario; handler sleeps slow_us at invocation slow_at */
 	/* binding to the hooked words (guarded by hl) */
-	_Atomic int hl; int gen_x;     /* publications so far: xchg(dt_pending_config, new) in dispatch_source_set_timer */
+	_Atomic int hl, cfg_window; int gen_x;     /* publications so far: xchg(dt_pending_config, new) in dispatch_source_set_timer */
 	const void *dt;
 	op_t ops[MAXOPS]; int nops;
 	cfgspec_t first;
@@ -109,6 +114,8 @@ static _Atomic long g_invocations, g_checks_exact, g_checks_weak, g_zero_data, g
 static _Atomic long g_checks_bound, g_bind_mismatch, g_cfg_disarmed_pending, g_cfg_armed_pending, g_cfgs, g_cfg_unclosed;
 static long g_scen[SC_N], g_trace_cfgs;
 static uint64_t g_t0_up;
+static uint64_t g_span_ms;
+static int g_trace_only;   /* C11_TRACE_ONLY=1 (demonstrations only): record the trace, do not judge in the driver */
 
 /* ---- trace mode ---- */
 static const char *g_traceout;
@@ -147,9 +154,18 @@ static struct tmr *timer_of(const void *dt)
 		if (d == dt) return g_map[i].t;
 	}
 }
-static __thread struct { struct tmr *t; int gen; int isnull; } tl_chk;   /* this thread's last look at a dt_pending_config */
+static __thread struct { struct tmr *t; int gen; int isnull; int done; } tl_chk;   /* this thread's last look at a dt_pending_config */
 static __thread struct tmr *tl_locked;
 static __thread struct { struct tmr *t; const void *dt; uint64_t pend; } tl_cfg;   /* configure in progress on this thread */
+static __thread struct { struct tmr *t; uint64_t val; } tl_preclear;                /* configure cleared before taking (value it overwrote) */
+static __thread struct { struct tmr *t; int in_window; } tl_latch;                 /* this thread's last latch (xchg ds_pending_data) */
+/* C11_STEER_CFG_WINDOW=<us> (directed population): when _dispatch_timers_run calls _dispatch_timer_unote_configure, stall the
+ * manager between the two accesses "take the configuration" (xchg dt_pending_config -> NULL) and "clear ds_pending_data",
+ * in whichever order the library performs them, i.e. a preemption of the manager thread at that instruction */
+static unsigned g_steer_us; static __thread int tl_from_run, tl_cfg_phase;
+static _Atomic long g_steer_stalls, g_window_latches;
+static void tlog(struct tmr *t, char what, int gen, uint64_t now, uint64_t data, uint64_t aux);
+
 static void prec_add(const char *kind, const void *obj, long a, long b)
 {
 	while (atomic_exchange_explicit(&g_plock, 1, memory_order_acquire)) { }
@@ -157,49 +173,78 @@ static void prec_add(const char *kind, const void *obj, long a, long b)
 	if (i < PCAP) { g_prec[i] = (prec_t){ kind, obj, a, b }; atomic_store(&g_nprec, i + 1); }
 	atomic_store_explicit(&g_plock, 0, memory_order_release);
 }
+/* site classes: 1 dt_pending_config; ds_pending_data: 3 the latch (xchg in _dispatch_source_latch_and_call), 4 the clearing
+ * store of _dispatch_timer_unote_configure, 2 any other access; -1 other words.  Classes 1, 3, 4 are serialised per timer. */
 static int site_class(struct dispatch_verif_site_s *site)
 {
 	int c = site->dvs_class;
 	if (c == 0) {      /* classified once per site (idempotent) */
-		c = strstr(site->dvs_expr, "dt_pending_config") ? 1 : strstr(site->dvs_expr, "ds_pending_data") ? 2 : -1;
+		if (strstr(site->dvs_expr, "dt_pending_config")) c = 1;
+		else if (!strstr(site->dvs_expr, "ds_pending_data")) c = -1;
+		else if (!strcmp(site->dvs_op, "xchg") && strstr(site->dvs_func, "_dispatch_source_latch_and_call")) c = 3;
+		else if (!strcmp(site->dvs_op, "store") && strstr(site->dvs_func, "_dispatch_timer_unote_configure")) c = 4;
+		else c = 2;
 		site->dvs_class = c;
 	}
 	return c;
 }
+static const void *dt_of(int c, const volatile void *addr)
+{
+	return (const char *)addr - (c == 1 ? offsetof(struct dispatch_timer_source_refs_s, dt_pending_config)
+			: offsetof(struct dispatch_timer_source_refs_s, ds_pending_data));
+}
 static void hook_pre(struct dispatch_verif_site_s *site, const volatile void *addr)
 {
-	if (site_class(site) != 1) return;
-	struct tmr *t = timer_of((const char *)addr - offsetof(struct dispatch_timer_source_refs_s, dt_pending_config));
+	int c = site_class(site);
+	if (c < 0 || c == 2) return;
+	struct tmr *t = timer_of(dt_of(c, addr));
 	if (!t) return;
+	if (g_steer_us && tl_from_run && (c == 4 || (c == 1 && site->dvs_op[0] == 'x' && strstr(site->dvs_func, "_dispatch_timer_unote_configure")))) {
+		if (!tl_cfg_phase) tl_cfg_phase = 1;
+		else { tl_cfg_phase = 0; if (t->scen == SC_CFG_WINDOW) { atomic_fetch_add(&g_steer_stalls, 1); tlog(t, 'Z', 0, _dispatch_uptime(), 0, 0); usleep(g_steer_us); } }
+	}
 	for (unsigned spins = 0; atomic_exchange_explicit(&t->hl, 1, memory_order_acquire); spins++) if (spins > 200) sched_yield();
 	tl_locked = t;
+	if (c == 4 && tl_cfg.t != t) { tl_preclear.t = t; tl_preclear.val = *(volatile uint64_t *)addr; }
 }
 static void hook_post(struct dispatch_verif_site_s *site, const volatile void *addr, unsigned long long ov,
 		unsigned long long nv, int ok, unsigned size)
 {
 	int c = site_class(site);
 	(void)ok; (void)size;
-	if (c == 1) {
-		struct tmr *t = tl_locked;
-		if (!t) return;
+	if (c < 0) return;
+	struct tmr *t = c == 2 ? NULL : tl_locked;
+	if (t) {
 		tl_locked = NULL;
-		if (site->dvs_op[0] == 'x' && nv != 0) {            /* dispatch_source_set_timer publishes a configuration */
+		if (c == 1 && site->dvs_op[0] == 'x' && nv != 0) {       /* dispatch_source_set_timer publishes a configuration */
 			t->gen_x++;
-		} else if (site->dvs_op[0] == 'x') {                /* _dispatch_timer_unote_configure takes it */
-			uint64_t pend = *(volatile uint64_t *)&((dispatch_timer_source_refs_t)t->dt)->ds_pending_data;
-			tl_chk.t = t; tl_chk.gen = t->gen_x; tl_chk.isnull = 1;
+		} else if (c == 1 && site->dvs_op[0] == 'x') {           /* _dispatch_timer_unote_configure takes it */
+			/* pending data of the replaced configuration that this configure finds: in the word now, or already
+			 * overwritten by this thread if the library clears before it takes */
+			uint64_t at_take = *(volatile uint64_t *)&((dispatch_timer_source_refs_t)t->dt)->ds_pending_data;
+			uint64_t pend = at_take ? at_take : tl_preclear.t == t ? tl_preclear.val : 0;
+			tl_preclear.t = NULL;
+			tl_chk.t = t; tl_chk.gen = t->gen_x; tl_chk.isnull = 1; tl_chk.done = atomic_load(&t->gen_done);
 			if (tl_cfg.t) atomic_fetch_add(&g_cfg_unclosed, 1);
 			tl_cfg.t = t; tl_cfg.dt = t->dt; tl_cfg.pend = pend;
 			atomic_fetch_add(&g_cfgs, 1);
 			if (pend & DISPATCH_TIMER_DISARMED_MARKER) atomic_fetch_add(&g_cfg_disarmed_pending, 1);
 			else if (pend) atomic_fetch_add(&g_cfg_armed_pending, 1);
-		} else if (site->dvs_op[0] == 'l') {                /* needs_configuration / needs_rearm / timers_run */
-			tl_chk.t = t; tl_chk.gen = t->gen_x; tl_chk.isnull = (ov == 0);
+			if (at_take) atomic_store(&t->cfg_window, 1);       /* taken, pending data of the old configuration not cleared yet */
+		} else if (c == 1 && site->dvs_op[0] == 'l') {           /* needs_configuration / needs_rearm / timers_run */
+			tl_chk.t = t; tl_chk.gen = t->gen_x; tl_chk.isnull = (ov == 0); tl_chk.done = atomic_load(&t->gen_done);
+			tl_from_run = ov != 0 && strstr(site->dvs_func, "_dispatch_timers_run") != NULL; tl_cfg_phase = 0;
+		} else if (c == 3) {                                     /* the latch of the invoke that is about to call the handler */
+			tl_latch.t = t; tl_latch.in_window = ov != 0 && atomic_load(&t->cfg_window);
+			if (tl_latch.in_window) atomic_fetch_add(&g_window_latches, 1);
+		} else if (c == 4) {
+			atomic_store(&t->cfg_window, 0);
 		}
 		atomic_store_explicit(&t->hl, 0, memory_order_release);
-	} else if (c == 2 && tl_cfg.t) {
+	}
+	if (c >= 2 && tl_cfg.t) {
 		/* first access of this thread to the ds_pending_data of the timer it has just configured */
-		if ((const char *)addr - offsetof(struct dispatch_timer_source_refs_s, ds_pending_data) != (const char *)tl_cfg.dt) return;
+		if (dt_of(c, addr) != tl_cfg.dt) return;
 		const char *op = site->dvs_op;
 		long opc = !strcmp(op, "store") ? 1 : !strcmp(op, "xchg") ? 2 : !strcmp(op, "load") ? 3 : 4;
 		/* a load inside configure itself decides nothing (a benign "if (pending) clear" stays quiet) */
@@ -207,6 +252,7 @@ static void hook_post(struct dispatch_verif_site_s *site, const volatile void *a
 		if (g_traceout && g_prec)
 			prec_add("tm_configure", tl_cfg.dt, (long)(tl_cfg.pend > 3 ? 2 | (tl_cfg.pend & 1) : tl_cfg.pend),
 					(opc << 16) | ((ov > 255 ? 255 : (long)ov) << 8) | (nv > 255 ? 255 : (long)nv));
+		atomic_store(&tl_cfg.t->cfg_window, 0);
 		tl_cfg.t = NULL;
 	}
 }
@@ -233,7 +279,8 @@ static void tlog(tmr_t *t, char what, int gen, uint64_t now, uint64_t data, uint
 
 static void dump_timer(FILE *f, tmr_t *t)
 {
-	static const char *SCN[] = { "random", "fire-while-suspended,set_timer,resume", "fire-while-target-queue-busy,set_timer", "slow-handler-sets-timer", "one-shot-fired,set_timer" };
+	static const char *SCN[] = { "random", "fire-while-suspended,set_timer,resume", "fire-while-target-queue-busy,set_timer", "slow-handler-sets-timer", "one-shot-fired,set_timer",
+			"one fire pending behind a busy queue,set_timer,second fire configures in _dispatch_timers_run (manager stalled),queue drains" };
 	fprintf(f, "{\"timer\":%d,\"kind\":%d,\"scenario\":\"%s\",\"own_queue_controlled\":%d,\"gen_pub\":%d,\"gen_done\":%d,\"cur\":%d,\"publications_seen\":%d,\"configs\":[",
 			t->id, t->kind, SCN[t->scen], t->own, atomic_load(&t->gen_pub), atomic_load(&t->gen_done), t->cur, t->gen_x);
 	for (int g = 1; g <= atomic_load(&t->gen_pub) && g < MAXG; g++)
@@ -247,15 +294,20 @@ static void dump_timer(FILE *f, tmr_t *t)
 	fprintf(f, "]}");
 }
 
+/* signature of the failing invocation, for the check's known-findings matching: "configure-window" = the data it delivered was
+ * latched while _dispatch_timer_unote_configure (on the manager) had taken the new configuration but not yet cleared
+ * ds_pending_data */
+static __thread const char *tl_sig = "";
 static void oracle_fail(tmr_t *t, const char *law, const char *detail, uint64_t a, uint64_t b)
 {
+	if (g_trace_only) return;
 	if (atomic_exchange(&g_fail, 1)) return;
-	fprintf(stderr, "ORACLE-FAIL C11 %s: %s (timer %d, a=%llu b=%llu, seed=%llu)\n", law, detail, t->id,
-			(unsigned long long)a, (unsigned long long)b, (unsigned long long)g_seed);
+	fprintf(stderr, "ORACLE-FAIL C11 %s: %s (timer %d, a=%llu b=%llu, seed=%llu)%s%s\n", law, detail, t->id,
+			(unsigned long long)a, (unsigned long long)b, (unsigned long long)g_seed, *tl_sig ? " signature=" : "", tl_sig);
 	dump_timer(stderr, t); fprintf(stderr, "\n");
 	if (g_failout) { FILE *f = fopen(g_failout, "w"); if (f) {
-		fprintf(f, "{\"law\":\"%s\",\"detail\":\"%s\",\"a\":%llu,\"b\":%llu,\"seed\":%llu,\"ntimers\":%d,\"timer\":", law, detail,
-				(unsigned long long)a, (unsigned long long)b, (unsigned long long)g_seed, N);
+		fprintf(f, "{\"law\":\"%s\",\"signature\":\"%s\",\"detail\":\"%s\",\"a\":%llu,\"b\":%llu,\"seed\":%llu,\"ntimers\":%d,\"span_ms\":%llu,\"steer_us\":%u,\"timer\":", law, tl_sig, detail,
+				(unsigned long long)a, (unsigned long long)b, (unsigned long long)g_seed, N, (unsigned long long)g_span_ms, g_steer_us);
 		dump_timer(f, t); fprintf(f, "}\n"); fclose(f); } }
 }
 
@@ -348,6 +400,11 @@ static void source_handler(void *ctx)
 	/* the needs-configuration load of the invoke2 that is delivering this invocation (same thread): it returned NULL
 	 * after exactly G publications */
 	int bound = tl_chk.t == t && tl_chk.isnull, G = tl_chk.gen;
+	/* (an invoke that delivers although it SAW an unapplied configuration - the library never does - may still follow a
+	 * generation whose set_timer call had not returned when it looked: judged by the weak rule from that generation on) */
+	int saw_unapplied_done = (tl_chk.t == t && !tl_chk.isnull) ? tl_chk.done : 0;
+	tl_sig = (tl_latch.t == t && tl_latch.in_window) ? "configure-window" : "";
+	tl_latch.t = NULL;
 	int pub = atomic_load(&t->gen_pub), done = atomic_load(&t->gen_done);
 	uint64_t data = dispatch_source_get_data(t->ds), now = 0;
 	if (bound && (G < 1 || G > pub || G >= MAXG)) bound = 0;
@@ -377,7 +434,7 @@ static void source_handler(void *ctx)
 	} else {
 		/* foreign-thread set_timer: generations that may legitimately be followed by this invocation:
 		 * from the newest whose call had returned when the PREVIOUS invocation was entered, to the newest started */
-		int lo = t->last_done_prev, ok = 0, incon = 0, gg = lo;
+		int lo = t->last_done_prev > saw_unapplied_done ? t->last_done_prev : saw_unapplied_done, ok = 0, incon = 0, gg = lo;
 		for (int g = lo; g <= pub && !ok; g++) {
 			int r = check_gen(t, g, data, 0, &now);
 			if (r == 0) { ok = 1; gg = g; t->cum[g] += data; }
@@ -390,6 +447,7 @@ static void source_handler(void *ctx)
 		t->last_done_prev = done;
 	}
 	if (_dispatch_uptime() >= atomic_load(&t->settle_up) && pub == done) atomic_fetch_add(&t->ninv_settled, 1);
+	tl_sig = "";
 	if (t->slow_at == n) usleep((useconds_t)t->slow_us);       /* the timer is disarmed behind the handler's back */
 	if (t->own && t->inh_at == n) do_set(t, &t->inh_spec, 1);
 }
@@ -455,6 +513,17 @@ static void gen_scenario(tmr_t *t)
 	t->nops = 0; t->inh_at = 0;
 	op_t *o;
 	uint64_t a1 = rndin(0, 60);
+	if (g_steer_us) {
+		/* directed: F1 at +10 ms is left pending behind a busy queue (timer stays armed), set_timer at +30 ms (foreign thread,
+		 * returns at once), F2 at +50 ms: _dispatch_timers_run finds the configuration and configures (stalled in the window),
+		 * the queue drains at +52..75 ms */
+		t->scen = SC_CFG_WINDOW; t->own = 0; t->strict = 0;
+		f->clock = 0; f->how = 0; f->delta_ns = 10 * (int64_t)NSEC_PER_MSEC; f->interval_ns = 40 * NSEC_PER_MSEC; f->leeway_ns = 0;
+		o = &t->ops[t->nops++]; o->op = OP_BUSY; o->at_ms = 0; o->dur_us = (10 + 40 + rndin(2, 25)) * 1000;
+		o = &t->ops[t->nops++]; o->op = OP_SET_FOREIGN; o->at_ms = 30; gen_reconf_spec(&o->spec);
+		o->spec.how = 0; o->spec.clock = 0; o->spec.delta_ns = 250 * (int64_t)NSEC_PER_MSEC;
+		return;
+	}
 	switch (t->scen) {
 	case SC_SUSP_FIRE: {
 		int racy = rndin(0, 99) < 15;       /* resume first, set_timer right behind it */
@@ -610,11 +679,13 @@ int main(int argc, char **argv)
 	g_seed = argc > 1 ? strtoull(argv[1], NULL, 0) : 1;
 	N = argc > 2 ? atoi(argv[2]) : 60;
 	uint64_t span_ms = argc > 3 ? strtoull(argv[3], NULL, 0) : 600;
-	g_failout = argc > 4 ? argv[4] : NULL;
+	g_failout = argc > 4 ? argv[4] : NULL; g_span_ms = span_ms;
 	rng_state = g_seed * 0x2545F4914F6CDD1Dull + 12345;
 	signal(SIGSEGV, on_crash); signal(SIGBUS, on_crash); signal(SIGABRT, on_crash); signal(SIGILL, on_crash); signal(SIGTRAP, on_crash);
 	T = calloc((size_t)N, sizeof(tmr_t));
 	g_traceout = argc > 5 ? argv[5] : NULL;
+	g_trace_only = g_traceout && getenv("C11_TRACE_ONLY") != NULL;
+	if (getenv("C11_STEER_CFG_WINDOW")) g_steer_us = (unsigned)atoi(getenv("C11_STEER_CFG_WINDOW"));
 	gen_population(span_ms);
 	if (g_traceout) {
 		for (int i = 0; i < N; i++) {
@@ -737,12 +808,12 @@ int main(int argc, char **argv)
 	printf("{\"seed\":%llu,\"timers\":%d,\"sources\":%d,\"own_queue_controlled\":%d,\"after_blocks\":%d,\"set_timer_calls\":%ld,\"handler_invocations\":%ld,"
 			"\"exact_checks\":%ld,\"weak_checks\":%ld,\"after_runs\":%ld,\"zero_data_invocations\":%ld,\"inconclusive_wall_step\":%ld,\"final_wait_ms\":%llu,\"trace_records\":%ld,\"trace_exact\":%d,\"trace_slots\":%d,"
 			"\"bound_checks\":%ld,\"bind_mismatch\":%ld,\"configures\":%ld,\"configure_on_disarmed_pending\":%ld,\"configure_on_armed_pending\":%ld,\"configure_unclosed\":%ld,"
-			"\"scen_susp_fire\":%ld,\"scen_busy_queue\":%ld,\"scen_slow_handler\":%ld,\"scen_oneshot_fired\":%ld,\"trace_configures\":%ld,\"failed\":%d}\n",
+			"\"scen_susp_fire\":%ld,\"scen_busy_queue\":%ld,\"scen_slow_handler\":%ld,\"scen_oneshot_fired\":%ld,\"trace_configures\":%ld,\"steer_stalls\":%ld,\"window_latches\":%ld,\"failed\":%d}\n",
 			(unsigned long long)g_seed, N, nsrc, own, naft, atomic_load(&g_sets), atomic_load(&g_invocations), atomic_load(&g_checks_exact),
 			atomic_load(&g_checks_weak), atomic_load(&g_after_runs), atomic_load(&g_zero_data), atomic_load(&g_inconclusive),
 			(unsigned long long)waited_ms, trace_records, trace_exact, trace_slots,
 			atomic_load(&g_checks_bound), atomic_load(&g_bind_mismatch), atomic_load(&g_cfgs), atomic_load(&g_cfg_disarmed_pending), atomic_load(&g_cfg_armed_pending), atomic_load(&g_cfg_unclosed),
-			g_scen[SC_SUSP_FIRE], g_scen[SC_BUSY_QUEUE], g_scen[SC_SLOW_HANDLER], g_scen[SC_ONESHOT_FIRED], g_trace_cfgs, atomic_load(&g_fail));
+			g_scen[SC_SUSP_FIRE], g_scen[SC_BUSY_QUEUE], g_scen[SC_SLOW_HANDLER], g_scen[SC_ONESHOT_FIRED], g_trace_cfgs, atomic_load(&g_steer_stalls), atomic_load(&g_window_latches), atomic_load(&g_fail));
 	fflush(stdout);
 	_exit(atomic_load(&g_fail) ? 2 : 0);
 }
